@@ -115,7 +115,9 @@ def mutate(a, kind, rnd):
         p, n = pick(lambda n: n[0] == "R")
         if p is None:
             return a, False
-        return set_at(a, p, ["R", n[1] + b" "]), True
+        r = n[1]
+        choices = [r + b" ", r.swapcase() if r.swapcase() != r else r + b"x", r[:-1] if len(r) > 1 else r + b"0"]
+        return set_at(a, p, ["R", rnd.choice(choices)]), True
     if kind == "bool_flip":
         p, n = pick(lambda n: n[0] in "tf")
         if p is None:
@@ -305,7 +307,7 @@ class C12(Prop):
         numbers = st.one_of(gens.finite_doubles(), gens.finite_doubles(), st.sampled_from([1.0, 0.1, 1e300, 2.5, -3.0, 123456.789]), gens.top_doubles(),
                             st.sampled_from([5e-324, 1e-310, 3e-308, 2.2250738585072014e-308, 1e-300, -1.7976931348623157e308]))
         strings = st.one_of(gens.byte_strings(8), st.sampled_from([b"abc", b"ABC", b"", b"x"]))
-        leaves = st.one_of(gens.scalars_built(strings=strings, numbers=numbers), st.sampled_from([b"{}", b"[1]", b"raw"]).map(lambda r: ["R", r]))
+        leaves = st.one_of(gens.scalars_built(strings=strings, numbers=numbers), st.sampled_from([b"{}", b"[1]", b"raw", b"1E3", b"true", b"Yes", b'{"Key":1}']).map(lambda r: ["R", r]))
         keys = st.one_of(gens.ascii_keys(4), gens.byte_strings(4), st.sampled_from([b"a", b"A", b"key", b"Key", b"k1", b"k2"]),
                          st.sampled_from([b"[", b"{", b"@", b"`", b"a[0]", b"x_y", b"^", b"~", b"k|", b"k\\"]))
         tree = st.one_of(gens.shaped_documents(leaves, keys, max_leaves=12, min_leaves=3, unique_keys=True, fold_unique=True),
